@@ -35,6 +35,8 @@ type c20Gen struct {
 	tabs  map[string][]string // app -> table names
 	eps   map[string][]string // app -> endpoint names
 	cl    map[string]bool
+	curEp string              // "App <- Ep" whose body is being generated
+	calls map[string][]string // call edges between endpoints ("App <- Ep" -> "App <- Ep")
 }
 
 var c20Apps = []string{"Alpha", "Beta", "Gamma", "Delta", "Ns :: Eps", "Zeta"}
@@ -98,6 +100,12 @@ func (g *c20Gen) stmts(sb *strings.Builder, cur string, ind string, depth int) {
 			a := pick(g.t, g.apps, "callapp")
 			eps := g.eps[a]
 			switch {
+			case g.curEp != "" && strings.HasPrefix(g.curEp, cur+" <- ") && g.p(12, "selfcall"):
+				// an endpoint that calls itself
+				me := strings.TrimPrefix(g.curEp, cur+" <- ")
+				g.cl["self_recursive_endpoint"] = true
+				g.calls[g.curEp] = append(g.calls[g.curEp], g.curEp)
+				fmt.Fprintf(sb, "%s. <- %s\n", ind, me)
 			case g.p(15, "danglingapp"):
 				g.cl["dangling_call_app"] = true
 				fmt.Fprintf(sb, "%s%s <- %s\n", ind, pick(g.t, []string{"Nowhere", "Ns :: Lost", "Alpha2"}, "noapp"), pick(g.t, c20Eps, "noappep"))
@@ -112,7 +120,11 @@ func (g *c20Gen) stmts(sb *strings.Builder, cur string, ind string, depth int) {
 				if a == cur && g.p(50, "dot") {
 					tgt = "."
 				}
-				fmt.Fprintf(sb, "%s%s <- %s\n", ind, tgt, pick(g.t, eps, "callep"))
+				ce := pick(g.t, eps, "callep")
+				if g.calls != nil && g.curEp != "" {
+					g.calls[g.curEp] = append(g.calls[g.curEp], a+" <- "+ce)
+				}
+				fmt.Fprintf(sb, "%s%s <- %s\n", ind, tgt, ce)
 			}
 		case 3:
 			fmt.Fprintf(sb, "%sreturn %s\n", ind, pick(g.t, []string{"ok", "error", "ok <: " + g.typeRef(cur), "200 <: sequence of " + g.typeRef(cur), "error <: string", "ok <: set of " + g.typeRef(cur), "404"}, "ret"))
@@ -146,7 +158,7 @@ func (g *c20Gen) stmts(sb *strings.Builder, cur string, ind string, depth int) {
 }
 
 func genC20Model(t *rapid.T) (string, map[string]bool, *c20Gen) {
-	g := &c20Gen{t: t, types: map[string][]string{}, tabs: map[string][]string{}, eps: map[string][]string{}, cl: map[string]bool{}}
+	g := &c20Gen{t: t, types: map[string][]string{}, tabs: map[string][]string{}, eps: map[string][]string{}, cl: map[string]bool{}, calls: map[string][]string{}}
 	na := rapid.IntRange(1, 4).Draw(t, "napps")
 	for i := 0; i < na; i++ {
 		g.apps = append(g.apps, c20Apps[(i+rapid.IntRange(0, 2).Draw(t, "appshift"))%len(c20Apps)])
@@ -235,7 +247,9 @@ func genC20Model(t *rapid.T) (string, map[string]bool, *c20Gen) {
 				continue
 			}
 			fmt.Fprintf(&sb, "    %s%s:\n", en, params)
+			g.curEp = a + " <- " + en
 			g.stmts(&sb, a, "        ", 0)
+			g.curEp = ""
 		}
 		if g.p(50, "rest") {
 			body = true
@@ -330,7 +344,37 @@ var c20Cmds = []c20Cmd{
 	{"validate", func(g *c20Gen, t *rapid.T) []string { return []string{"validate", "m.sysl"} }},
 	{"sd-endpoint", func(g *c20Gen, t *rapid.T) []string {
 		args := []string{"sd"}
-		// 1-3 start endpoints in one diagram (every other start is a "see below" cut for the others)
+		// endpoints on a call cycle of length 1 or 2: listing every member of a cycle as a start is
+		// the interesting case (each start is a "see below" cut for the others)
+		var cyc [][]string
+		for from, tos := range g.calls {
+			for _, to := range tos {
+				if to == from {
+					cyc = append(cyc, []string{from})
+				}
+				for _, back := range g.calls[to] {
+					if back == from && to != from {
+						cyc = append(cyc, []string{from, to})
+					}
+				}
+			}
+		}
+		sort.Slice(cyc, func(i, j int) bool { return strings.Join(cyc[i], "|") < strings.Join(cyc[j], "|") })
+		if len(cyc) > 0 && rapid.IntRange(0, 3).Draw(t, "sdcyclestarts") != 0 {
+			c := cyc[rapid.IntRange(0, len(cyc)-1).Draw(t, "sdcycle")]
+			if len(c) == 1 || rapid.Bool().Draw(t, "sdleadin") {
+				a := pick(t, g.apps, "sdleadapp")
+				if len(g.eps[a]) > 0 {
+					args = append(args, "-s", a+" <- "+pick(t, g.eps[a], "sdleadep"))
+				}
+			}
+			for _, m := range c {
+				args = append(args, "-s", m)
+			}
+			g.cl["sd_starts_cover_a_call_cycle"] = true
+			return append(append(args, "-o", "sd.puml"), "m.sysl")
+		}
+		// 1-3 start endpoints in one diagram
 		for k := 0; k < rapid.IntRange(1, 3).Draw(t, "nsdstarts"); k++ {
 			a := pick(t, g.apps, "sdapp")
 			e := "Get"
@@ -393,9 +437,23 @@ var c20Cmds = []c20Cmd{
 	}},
 }
 
+var c20SdEndpointIndex = func() int {
+	for i, c := range c20Cmds {
+		if c.label == "sd-endpoint" {
+			return i
+		}
+	}
+	return 0
+}()
+
 func genC20(t *rapid.T) c20Case {
 	text, cl, g := genC20Model(t)
-	cmd := c20Cmds[rapid.IntRange(0, len(c20Cmds)-1).Draw(t, "cmd")]
+	// sd with several start endpoints has the largest option space: it gets three slots
+	ci := rapid.IntRange(0, len(c20Cmds)+1).Draw(t, "cmd")
+	if ci >= len(c20Cmds) {
+		ci = c20SdEndpointIndex
+	}
+	cmd := c20Cmds[ci]
 	c := c20Case{Files: map[string]string{"m.sysl": text}, Cmd: cmd.label}
 	c.Args = cmd.args(g, t)
 	if cmd.label == "db-scripts-delta" {
@@ -445,7 +503,10 @@ func c20Exec(c c20Case, timeout time.Duration) (*c20Run, error) {
 	before, _ := os.ReadDir(dir)
 	ctx, cancel := context.WithTimeout(context.Background(), timeout)
 	defer cancel()
-	cmd := exec.CommandContext(ctx, sysl, c.Args...)
+	// an address-space limit turns a runaway (unbounded recursion that grows the heap, not the stack)
+	// into a prompt 'fatal error: out of memory' instead of a machine-wide slowdown
+	shArgs := append([]string{"-c", `ulimit -v 6000000; exec "$0" "$@"`, sysl}, c.Args...)
+	cmd := exec.CommandContext(ctx, "/bin/sh", shArgs...)
 	cmd.Dir = dir
 	cmd.Env = append(os.Environ(), "GOTRACEBACK=all", "SYSL_PLANTUML=http://localhost:1", "GOMAXPROCS=2")
 	var so, se bytes.Buffer
@@ -525,5 +586,5 @@ var c20Prop = Define("C20", "cli",
 
 func TestC20(t *testing.T) {
 	checkKnown(t, "C20")
-	c20Prop.Run(t, scale(120, 1200))
+	c20Prop.Run(t, scale(200, 1500))
 }
